@@ -223,32 +223,43 @@ end Discret.Lock
 namespace Discret.LockConn
 open Discret.Lock
 
-/-! ### system level: the connection side breaks exclusivity (DESIGN.md §4, site 26)
+/-! ### system level: connections using the service (`Model/LockConn.lean`)
 
 "At most one connection synchronises a room at a time" needs every `Unlock r` to come from the
-current holder, once. The connection code does not guarantee that. -/
+current holder, once. The connection code before `fix: release each room lock exactly once when a
+connection ends` did not guarantee that (DESIGN.md §4, site 26; replayed on the real
+`LocalPeerService` by engine `lockconn`, corpus/C20/conn-double-unlock.ops). -/
 
-/-- **C20_breaks_doubleUnlock.** Connection 0 holds room 7 and its loop ends: `cleanup` unlocks 7
-    while the task is still running; the room goes to connection 1; the task of connection 0 then
-    finishes and unlocks 7 *again*, which releases connection 1's lock; connection 2 is granted
-    room 7 while connection 1 is still synchronising it. -/
+/-- **C20_breaks_doubleUnlock (code before the fix).** Connection 0 synchronises room 7 and its loop
+    ends: `cleanup` unlocks 7 while the task is still running; the room goes to connection 1; the
+    task of connection 0 then finishes and unlocks 7 *again*, which releases connection 1's lock;
+    connection 2 is granted room 7 while connection 1 is still synchronising it. -/
 def doubleUnlockTrace : List SOp :=
-  [.request 0 [7], .recv 0, .task 0 7,        -- conn 0 synchronises room 7
+  [.conn 0, .conn 1, .conn 2,
+   .request 0 [7], .recv 0, .task 0 0,        -- conn 0 synchronises room 7
    .request 1 [7], .request 2 [7],            -- conn 1 and 2 wait for it
-   .close 0,                                   -- loop of conn 0 ends: cleanup unlocks 7 -> granted to conn 1
-   .recv 1, .task 1 7,                         -- conn 1 synchronises room 7
-   .task 0 7,                                  -- conn 0's task ends: second Unlock(7) -> granted to conn 2
-   .recv 2, .task 2 7]                         -- conn 2 synchronises room 7 as well
+   .close 0,                                   -- loop of conn 0 ends
+   .recv 1, .task 1 0,                         -- (before the fix) conn 1 synchronises room 7
+   .task 0 0,                                  -- conn 0's task ends and unlocks 7
+   .recv 2, .task 2 0]
 
 theorem C20_breaks_doubleUnlock :
-    syncing (srun (sinit 1 3) doubleUnlockTrace) 7 = [1, 2] := by decide
+    syncing (srun Defects.beforeFix (sinit 1) doubleUnlockTrace) 7 = [1, 2] := by decide
 
-/-- **C20_breaks_grantInFlightAtClose.** A grant sent to a connection whose loop ends before
-    receiving it is never released: the room stays locked with no holder, for ever. -/
-def grantInFlightTrace : List SOp := [.request 0 [7], .close 0, .request 1 [7]]
+/-- the same schedule on the code as fixed: nobody else gets the room while connection 0's task runs -/
+theorem C20_doubleUnlock_fixed :
+    syncing (srun Defects.none (sinit 1) doubleUnlockTrace) 7 = [] ∧
+    syncing (srun Defects.none (sinit 1) (doubleUnlockTrace ++ [.recv 1, .task 1 0])) 7 = [1] := by decide
+
+/-- **C20_breaks_grantInFlightAtClose (code before the fix).** A grant sent to a connection whose
+    loop ends before receiving it is never released: the room stays locked with no holder. -/
+def grantInFlightTrace : List SOp := [.conn 0, .conn 1, .request 0 [7], .close 0, .request 1 [7]]
 
 theorem C20_breaks_grantInFlightAtClose :
-    orphaned (srun (sinit 1 2) grantInFlightTrace) 7 = true ∧
-    (srun (sinit 1 2) grantInFlightTrace).conns.all (fun c => c.inbox.isEmpty) = true := by decide
+    orphaned (srun Defects.beforeFix (sinit 1) grantInFlightTrace) 7 = true := by decide
+
+theorem C20_grantInFlight_fixed :
+    orphaned (srun Defects.none (sinit 1) grantInFlightTrace) 7 = false ∧
+    ((srun Defects.none (sinit 1) grantInFlightTrace).conns.map (·.inbox)) = [[], [7]] := by decide
 
 end Discret.LockConn
